@@ -10,7 +10,7 @@ const SPEC: Spec = Spec {
         "operand families: the complete small square, a structured family of large values (powers of two 2^i with i spanning several digits times odd parts with known common factors) and Dense(S5,2)^2",
         "refint gcd is trusted; cross-checked against Python math.gcd on a transcript slice",
     ],
-    bounds_quick: "G1 all (a,b) in [-300,300]^2; G2 T x T with T = {2^i*u : 14 shifts i up to 200, u in 9 odd parts} x 4 sign pairs; G3 Dense(S5,3) x Dense(S5,2) x 4 sign pairs; G5 consecutive Fibonacci numbers F(k),F(k+1) for k in {100,1000,1500,3000} (plain and with a common factor) and 2^k-1 against 2^(k-1)+1",
+    bounds_quick: "G1 all (a,b) in [-300,300]^2; G2 T x T with T = {2^i*u : 14 shifts i up to 200, u in 9 odd parts} x 4 sign pairs; G3 Dense(S5,3) x Dense(S5,2) x 4 sign pairs; G5 consecutive Fibonacci numbers F(k),F(k+1) for k in {100,1000,1500,3000} (plain and with a common factor) and 2^k-1 against 2^(k-1)+1; G6 (+-Dense(S16,2))^2 (half-digit alphabet)",
     bounds_thorough: "G1 [-1000,1000]^2; G2 with 22 shifts up to 320 and 9 odd parts; G3 Dense(S5,3)^2 x 4 sign pairs; G5 up to k=10000",
     hang_secs: 60,
     probes: None,
@@ -265,6 +265,21 @@ fn body(ctx: &mut Ctx) {
                 ctx.sample(|| format!("planted common factor g*2^{} ({} digits) times dense LCG cofactors up to {} digits", k, lg, lmax));
             }
         }
+    }
+    // G6: half-digit value structure
+    if ctx.space("G6") {
+        let set = alpha::dense(&alpha::SIGMA16, 2);
+        for (i, ad) in set.iter().enumerate() {
+            if !ctx.mine(i as u64) {
+                continue;
+            }
+            for bd in &set {
+                for (sa, sb) in [(false, false), (true, false), (false, true), (true, true)] {
+                    pair(ctx, &Int::new(sa, Nat::from_digits(ad)), &Int::new(sb, Nat::from_digits(bd)), None);
+                }
+            }
+        }
+        ctx.sample(|| "(+-Dense(S16,2))^2 (16-letter half-digit alphabet)".to_string());
     }
     // G5: operand pairs that keep the gcd loops running for thousands of iterations
     if ctx.space("G5") {
